@@ -543,6 +543,12 @@ class Interp(object):
             try:
                 self.exec_block(fn.body, env, fi)
             except _Return as r:
+                if isinstance(r.value, bool) and fi.cls is None:
+                    definition = getattr(fn, '_sa_pred_def', False)
+                    if definition is False:
+                        rets = [n for n in walk_own(fn) if isinstance(n, ast.Return)]
+                        definition = fn._sa_pred_def = short(rets[0].value, 90) if len(rets) == 1 and rets[0].value is not None else None
+                    self.trace.add('PRED', name=fi.name, value=r.value, args=list(actual), definition=definition)
                 return r.value
             return None
         finally:
@@ -1059,6 +1065,10 @@ class Interp(object):
     def builtin(self, name, args, kwargs, node, fi):
         if name == 'isinstance' and len(args) == 2:
             return self.isinstance(args[0], args[1], node)
+        if name in ('float', 'complex', 'int') and len(args) == 1 and isinstance(args[0], Arr):
+            if not args[0].size1:
+                raise Raised(self.builtin_exc('TypeError', 'only length-1 arrays can be converted to Python scalars', node))
+            args = [N(args[0].item.v)]
         if name == 'int' and len(args) == 1:
             v = args[0]
             if isinstance(v, N):
@@ -1068,6 +1078,8 @@ class Interp(object):
             if isinstance(v, (int, float)):
                 return int(v)
             raise AnalysisError('int() of `%s`' % describe(v))
+        if name == 'complex' and len(args) == 1 and isinstance(self.lift(args[0]), N):
+            return N(complex(self.lift(args[0]).v), False)
         if name == 'float' and len(args) == 1:
             v = args[0]
             if isinstance(v, N):
@@ -1338,26 +1350,12 @@ class Interp(object):
         """numpy's elementwise binary operation  a op x  (x op a when reflected)."""
         if isinstance(x, N):
             self.trace.add('EW', op=op, arr=a, other=x, reflected=reflected, broadcast=False, node=node, inplace=inplace)
-            c = x.v
             item = None
             if a.item is not None:
                 l, r = (x, a.item) if reflected else (a.item, x)
                 item = self.num_binop(op, N(l.v), N(r.v), node)
                 item = N(item.v)
-            if op == 'add':
-                val = lf_add(a.val, lf_atom(('ones', a.shape), c)) if c != 0 else dict(a.val)
-            elif op == 'sub':
-                val = lf_add(lf_scale(a.val, -1 if reflected else 1), lf_atom(('ones', a.shape), c if reflected else -c)) \
-                    if c != 0 else lf_scale(a.val, -1 if reflected else 1)
-            elif op == 'mul':
-                val = lf_scale(a.val, c)
-            elif op == 'truediv' and not reflected:
-                if c == 0:
-                    raise Raised(self.builtin_exc('ZeroDivisionError', 'division by zero (numpy error state: divide=call)', node))
-                val = lf_scale(a.val, 1.0 / c)
-            else:
-                val = lf_atom(('ew_' + op + ('_r' if reflected else ''), lf_frozen(a.val), _round(c)))
-            return Arr(a.shape, val, item, False)
+            return Arr(a.shape, self.scalar_val(op, a, x.v, not reflected, node), item, False)
         if isinstance(x, Arr):
             shape = dims_broadcast(a.shape, x.shape)
             if shape is None or (inplace and shape != a.shape):
@@ -1367,6 +1365,11 @@ class Interp(object):
             l, r = (x, a) if reflected else (a, x)
             if op in ('add', 'sub') and a.shape == x.shape:
                 val = lf_add(l.val, r.val, 1 if op == 'add' else -1)
+            elif r.size1 and not l.size1:
+                # a one-element array broadcasts like the number it holds (entries are the same; only the shape may grow)
+                val = self.scalar_val(op, l, r.item.v, True, node)
+            elif l.size1 and not r.size1:
+                val = self.scalar_val(op, r, l.item.v, False, node)
             else:
                 val = lf_product('ew_' + op, l.val, r.val)
             item = None
@@ -1376,6 +1379,22 @@ class Interp(object):
         if isinstance(x, Foreign):
             raise Raised(self.builtin_exc('TypeError', 'unsupported operand type(s) for an ndarray operation', node))
         raise AnalysisError('ndarray operation with `%s`' % describe(x))
+
+    def scalar_val(self, op, big, c, scalar_on_right, node):
+        """Value identity of  big op c  (scalar on the right) or  c op big  for an elementwise numpy operation."""
+        if op == 'add':
+            return lf_add(big.val, lf_atom(('ones', big.shape), c)) if c != 0 else dict(big.val)
+        if op == 'sub':
+            sign = 1 if scalar_on_right else -1
+            out = lf_scale(big.val, sign)
+            return lf_add(out, lf_atom(('ones', big.shape), -c * sign)) if c != 0 else out
+        if op == 'mul':
+            return lf_scale(big.val, c)
+        if op == 'truediv' and scalar_on_right:
+            if c == 0:
+                raise Raised(self.builtin_exc('ZeroDivisionError', 'division by zero (numpy error state: divide=call)', node))
+            return lf_scale(big.val, 1.0 / c)
+        return lf_atom(('ew_' + op + ('' if scalar_on_right else '_r'), lf_frozen(big.val), _round(c)))
 
     def ext_call(self, dotted, args, kwargs, node):
         if dotted == 'numpy.dot' and len(args) == 2 and not kwargs:
@@ -1404,8 +1423,11 @@ class Interp(object):
             a, k = args[0], self.lift(args[1])
             if not isinstance(a, Arr):
                 raise AnalysisError('matrix_power of `%s`' % describe(a))
-            if not a.square:
+            if a.ndim < 2:
+                raise Raised(ExcInst(self.external('numpy.linalg.LinAlgError'), ('array must be at least two-dimensional',), node))
+            if a.shape[-1] != a.shape[-2]:
                 raise Raised(ExcInst(self.external('numpy.linalg.LinAlgError'), ('Last 2 dimensions of the array must be square',), node))
+            # numpy.linalg works on the last two axes: a tensor with square trailing axes is treated as a stack of matrices
             if not isinstance(k, N):
                 raise AnalysisError('matrix_power exponent `%s`' % describe(k))
             if k.kind != 'int':
